@@ -47,7 +47,8 @@ def close(a, b, atol=ATOL, rtol=RTOL):
         return False
     with np.errstate(invalid="ignore"):
         d = np.abs(a - b)
-        ok = d <= atol + rtol * np.abs(b)
+        # an infinite reference cell tolerates only the same infinity (rtol * inf would accept anything)
+        ok = np.isfinite(a) & np.isfinite(b) & (d <= atol + rtol * np.abs(b))
     both_inf = np.isinf(a) & np.isinf(b) & (np.sign(a) == np.sign(b))
     both_nan = np.isnan(a) & np.isnan(b)
     return bool(np.all(ok | both_inf | both_nan))
